@@ -1771,6 +1771,8 @@ def run_A(pid, tier, seed):
         if out[0] != "ok":
             sig = "gather-hang" if out[0] == "hang" else "gather-raised:" + type(out[1]).__name__
             failures.append(Failure("counterexample", sig, sc, dict(outcome=repr(out)[:300]), slice_="A"))
+            if out[0] == "hang":
+                break      # a stuck scheduler cannot be killed and may spin: a hang is a counterexample already, stop here
             continue
         for j, r in enumerate(out[1]):
             want = A.expected(sc, 1000 + j)
